@@ -11,7 +11,7 @@ HEADER = "From OCV Require Import Misc.StackGrow Misc.StackGrowOracle."
 AREA = "grow"
 ISOLATE = True
 TIMEOUT_MS = 20000
-LEVEL = "partial"
+LEVEL = "proof"
 SHRINK_KEY = None
 RULE = ("program trees run by real maybe_grow_with on a plain thread and inside a coroutine: the stack pointer is "
         "positioned (measured) well above or well below the red zone before each call, calls are nested up to 4 deep, "
